@@ -8,6 +8,7 @@ the local location invariant on every match object the library constructs.
 """
 from __future__ import annotations
 
+import os
 import re
 
 from rt import gen, hooks, impl
@@ -33,7 +34,7 @@ NP_RE = re.compile(r"""^\$(?:\[(?:0|[1-9][0-9]*)\]|\['(?:[\x20-\x26\x28-\x5b\x5d
 
 def plan(tier, seed):
     n = 15 if tier == "quick" else 46
-    return [{"n": 500 if tier == "quick" else 2500, "profile": ["unique", "mixed"][i % 2]} for i in range(n)]
+    return [{"kind": "w0"}] + [{"n": 500 if tier == "quick" else 2500, "profile": ["unique", "mixed"][i % 2]} for i in range(n)]
 
 
 def install():
@@ -166,8 +167,41 @@ def check_case(ctx, text, doc, cls):
         ctx.sample({"text": text, "matches": len(ms), "paths": paths[:3], "pointers": want_ptrs[:3]})
 
 
+def run_w0(ctx, only=None):
+    """W0: the repository's own tests run under the H2 monitor (someone else's workload)."""
+    import json
+    import subprocess
+    import sys
+
+    from rt.harness import REPO, VERIF
+
+    out = os.path.join(VERIF, "out", "C03", "w0-%d.json" % os.getpid())
+    env = dict(os.environ)
+    env.update({"VERIF_W0_OUT": out, "PYTHONPATH": os.pathsep.join([REPO, VERIF, os.path.join(VERIF, ".deps")])})
+    cmd = [sys.executable, "-B", "-m", "pytest", "-p", "rt.verif_pytest_plugin", "-q", "-p", "no:cacheprovider", "--continue-on-collection-errors"] + ([only] if only else [])
+    try:
+        subprocess.run(cmd, cwd=REPO, env=env, capture_output=True, timeout=600)
+    except subprocess.TimeoutExpired:
+        ctx.notes.append("W0 timed out")
+        return
+    if not os.path.exists(out):
+        ctx.notes.append("W0 produced no result file")
+        return
+    with open(out) as f:
+        res = json.load(f)
+    os.unlink(out)
+    ctx.count("W0_tests_run_under_monitors", res.get("tests", 0))
+    ctx.count("W0_H2_matches_checked", res.get("h2_matches_checked", 0))
+    ctx.count("W0_H6_contract_evaluations", res.get("h6_contract_evaluations", 0))
+    for v in res.get("h2", [])[:3]:
+        ctx.violation("W0:H2-local-location-invariant-under-the-repository's-own-tests", {"w0_test": v["test"]}, v)
+
+
 def run(spec, ctx):
     install()
+    if spec.get("kind") == "w0":
+        run_w0(ctx)
+        return
     r = ctx.rng
     # directed: every hostile name at depth 1-2, as member of objects inside arrays
     if spec["shard"] == 0:
@@ -205,4 +239,7 @@ def finalize(m, tier):
 
 def replay(case, ctx):
     install()
+    if "w0_test" in case:
+        run_w0(ctx, only=case["w0_test"])
+        return
     check_case(ctx, case["text"], case["doc"], case.get("class", "replay"))
